@@ -122,19 +122,30 @@ func (s *Server) servePacket(pc net.PacketConn) error {
 	// closeCh is used to receive notifications of socket closures from
 	// packetConn, which allows us to remove stale connections (whose
 	// proxy handlers have completed) from the udpConns map.
-	closeCh := make(chan string, 10)
+	closeCh := make(chan *packetConn, 10)
 	for {
 		select {
-		case addr := <-closeCh:
+		case conn := <-closeCh:
 			// UDP connection is closed (either implicitly through timeout or by
-			// explicit call to Close()).
-			delete(udpConns, addr)
+			// explicit call to Close()). A connection announces this more than
+			// once, so only remove it if it hasn't been replaced by a new one
+			// for the same downstream in the meantime.
+			if udpConns[conn.addr.String()] == conn {
+				delete(udpConns, conn.addr.String())
+			}
 
 		case pkt := <-packets:
 			if pkt.err != nil {
 				return pkt.err
 			}
+		deliver:
 			conn, ok := udpConns[pkt.addr.String()]
+			if ok && conn.isClosed() {
+				// The handler has completed, but we haven't got round to
+				// processing its notification yet.
+				delete(udpConns, pkt.addr.String())
+				ok = false
+			}
 			if !ok {
 				// No existing proxy handler is running for this downstream.
 				// Create one now.
@@ -143,6 +154,7 @@ func (s *Server) servePacket(pc net.PacketConn) error {
 					readCh:     make(chan *packet, 5),
 					addr:       pkt.addr,
 					closeCh:    closeCh,
+					done:       make(chan struct{}),
 				}
 				udpConns[pkt.addr.String()] = conn
 				go func(conn *packetConn) {
@@ -155,7 +167,13 @@ func (s *Server) servePacket(pc net.PacketConn) error {
 					// the old one shutting down.
 				}(conn)
 			}
-			conn.readCh <- &pkt
+			select {
+			case conn.readCh <- &pkt:
+			case <-conn.done:
+				// The connection was closed while we were waiting for room in
+				// its queue; hand the packet to a new one.
+				goto deliver
+			}
 		}
 	}
 }
@@ -235,7 +253,11 @@ type packetConn struct {
 	net.PacketConn
 	addr    net.Addr
 	readCh  chan *packet
-	closeCh chan string
+	closeCh chan *packetConn
+	// done is closed by Close(); readCh itself is never closed, because the
+	// server loop may be sending to it at that very moment
+	done      chan struct{}
+	closeOnce sync.Once
 	// If not nil, then the previous Read() call didn't consume all the data
 	// from the buffer, and this packet will be reused in the next Read()
 	// without waiting for readCh.
@@ -303,12 +325,10 @@ func (pc *packetConn) Read(b []byte) (n int, err error) {
 	var done bool
 	for !done {
 		select {
+		case <-pc.done:
+			// Closed from another goroutine. Return EOF below.
+			done = true
 		case pkt := <-pc.readCh:
-			if pkt == nil {
-				// Channel is closed. Return EOF below.
-				done = true
-				break
-			}
 			buf := bytes.NewReader(pkt.pooledBuf[:pkt.n])
 			n, err = buf.Read(b)
 			if buf.Len() == 0 {
@@ -337,7 +357,7 @@ func (pc *packetConn) Read(b []byte) (n int, err error) {
 	// Although Close() also does this, we inform the server loop early about
 	// the closure to ensure that if any new packets are received from this
 	// connection in the meantime, a new handler will be started.
-	pc.closeCh <- pc.addr.String()
+	pc.closeCh <- pc
 	// Returning EOF here ensures that io.Copy() waiting on the downstream for
 	// reads will terminate.
 	return 0, io.EOF
@@ -353,17 +373,32 @@ func (pc *packetConn) Close() error {
 		pc.lastPacket = nil
 	}
 	// This will abort any active Read() from another goroutine and return EOF
-	close(pc.readCh)
+	pc.closeOnce.Do(func() { close(pc.done) })
 	// Drain pending packets to ensure we release buffers back to the pool
-	for pkt := range pc.readCh {
-		udpBufPool.Put(pkt.pooledBuf)
+drain:
+	for {
+		select {
+		case pkt := <-pc.readCh:
+			udpBufPool.Put(pkt.pooledBuf)
+		default:
+			break drain
+		}
 	}
 	// We may have already done this earlier in Read(), but just in case
 	// Read() wasn't being called, (re-)notify server loop we're closed.
-	pc.closeCh <- pc.addr.String()
+	pc.closeCh <- pc
 	// We don't call net.PacketConn.Close() here as we would stop the UDP
 	// server.
 	return nil
+}
+
+func (pc *packetConn) isClosed() bool {
+	select {
+	case <-pc.done:
+		return true
+	default:
+		return false
+	}
 }
 
 func (pc *packetConn) RemoteAddr() net.Addr { return pc.addr }
